@@ -11,7 +11,8 @@ use helgoboss_midi::{ParameterNumberMessage, PollingParameterNumberMessageScanne
 use proptest::prelude::*;
 use serde_json::{json, Value};
 
-pub const TIMEOUTS: [u64; 7] = [0, 1, 1_000_000, 10_000_000_000, u64::MAX, u64::MAX - 1, u64::MAX - 2];
+/// (10^18 + 1 ns, about 31.7 years, is a large *finite* timeout: beyond f64 / u32-second precision)
+pub const TIMEOUTS: [u64; 8] = [0, 1, 1_000_000, 10_000_000_000, u64::MAX, u64::MAX - 1, u64::MAX - 2, 1_000_000_000_000_000_001];
 
 /// clock epochs used by the history checks (0, 1 ns, ~11.5 days); only elapsed time may matter
 pub fn clock_start(h: u64) -> u64 {
@@ -548,8 +549,8 @@ fn check_scenario_json(v: &Value) -> Option<CheckResult> {
 // C13 / C14 runs
 // ---------------------------------------------------------------------------------------------
 
-static ALL_TIMEOUT_IDX: [u8; 9] = [0, 1, 2, 3, 4, 5, 6, 2, 3];
-static C14_TIMEOUT_IDX: [u8; 7] = [0, 2, 2, 1, 3, 5, 6];
+static ALL_TIMEOUT_IDX: [u8; 11] = [0, 1, 2, 3, 4, 5, 6, 7, 7, 2, 3];
+static C14_TIMEOUT_IDX: [u8; 8] = [0, 2, 2, 1, 3, 5, 6, 7];
 
 fn observed_sub(ctx: &Ctx, prop: &'static str, name: &str, cases: u64, max_len: usize, timeouts: &'static [u8], weights: Option<fn() -> Weights>) -> Sub {
     let proto = Sub::new(
